@@ -29,6 +29,8 @@ pub enum SeedSpec {
     Crash { seed: u64, k: u64 },
     /// grammar-built image: well-formed boxes, random and mutually inconsistent contents
     Grammar { seed: u64 },
+    /// muxer output whose chunks are stored in a random physical order (offsets rewritten)
+    MuxShuffled { seed: u64 },
 }
 
 impl SeedSpec {
@@ -42,6 +44,7 @@ impl SeedSpec {
             SeedSpec::Frag { .. } => "frag",
             SeedSpec::Crash { .. } => "crash",
             SeedSpec::Grammar { .. } => "grammar",
+            SeedSpec::MuxShuffled { .. } => "mux_shuffled",
         }
     }
 }
@@ -149,6 +152,101 @@ pub fn relocate_moov_first(img: &[u8]) -> Option<Vec<u8>> {
     Some(out)
 }
 
+/// Text for string fields: empty, short, long, multi-byte UTF-8 of many byte lengths (so that
+/// character boundaries fall on every small offset), and occasionally invalid UTF-8.
+pub fn g_text(r: &mut Rng) -> Vec<u8> {
+    let units: [&str; 8] = ["a", "Z", "\u{e9}", "\u{30ab}", "\u{30c6}", "\u{1F3AC}", "\u{4e2d}", " "];
+    match r.below(10) {
+        0 => Vec::new(),
+        1 => b"h".to_vec(),
+        2 => b"VideoHandler".to_vec(),
+        3 => {
+            let n = 30 + r.below(60) as usize;
+            (0..n).map(|i| b'a' + (i % 26) as u8).collect()
+        }
+        4 | 5 | 6 => {
+            // mixed-width characters up to a target byte length around interesting sizes
+            let target = *r.pick(&[3usize, 8, 16, 31, 32, 33, 34, 35, 36, 48, 63, 64, 65, 100, 255, 256, 300]);
+            let mut s = String::new();
+            while s.len() < target {
+                s.push_str(units[r.usize_below(units.len())]);
+            }
+            s.into_bytes()
+        }
+        7 => {
+            let n = 1 + r.below(40) as usize;
+            let ch = units[2 + r.usize_below(5)];
+            ch.repeat(n).into_bytes()
+        }
+        8 => {
+            let mut v = vec![0u8; 1 + r.below(20) as usize];
+            r.fill(&mut v);
+            for b in v.iter_mut() {
+                if *b == 0 {
+                    *b = 0xC3;
+                }
+            }
+            v
+        }
+        _ => b"handler".to_vec(),
+    }
+}
+
+/// Same movie, different physical layout: the chunks of all tracks are stored in a seeded random
+/// order inside the media data box (chunk offsets rewritten), so offsets are no longer monotonic
+/// within a track nor interleaved in time order. Legal ISO-BMFF; the muxer never writes it.
+pub fn shuffle_chunks(img: &[u8], seed: u64) -> Option<Vec<u8>> {
+    let v = img.to_vec();
+    let m = crate::indep::parse(&v, 0, v.len() as u64).ok()?;
+    if m.mdat.len() != 1 {
+        return None;
+    }
+    let (pa, pb) = m.mdat[0];
+    // (track, chunk index, old offset, length)
+    let mut chunks: Vec<(usize, usize, u64, u64)> = Vec::new();
+    for (ti, t) in m.tracks.iter().enumerate() {
+        for (ci, c) in t.chunks().ok()?.iter().enumerate() {
+            if c.offset < pa || c.offset + c.bytes > pb {
+                return None;
+            }
+            chunks.push((ti, ci, c.offset, c.bytes));
+        }
+    }
+    if chunks.len() < 2 {
+        return None;
+    }
+    let first = chunks.iter().map(|c| c.2).min()?;
+    let total: u64 = chunks.iter().map(|c| c.3).sum();
+    if first + total != pb {
+        return None; // chunks do not tile the payload: leave such images alone
+    }
+    let mut order: Vec<usize> = (0..chunks.len()).collect();
+    let mut r = Rng::new(seed ^ 0x5FFE);
+    r.shuffle(&mut order);
+    let mut out = v.clone();
+    let mut cursor = first;
+    let mut new_off = vec![0u64; chunks.len()];
+    for &i in &order {
+        let (_, _, old, len) = chunks[i];
+        out[cursor as usize..(cursor + len) as usize].copy_from_slice(&v[old as usize..(old + len) as usize]);
+        new_off[i] = cursor;
+        cursor += len;
+    }
+    for (i, (ti, ci, _, _)) in chunks.iter().enumerate() {
+        let t = &m.tracks[*ti];
+        let (name, b) = t.pos.iter().find(|(n, _)| n == "stco" || n == "co64")?;
+        let base = (b.body() + 8) as usize;
+        if name == "stco" {
+            let o = base + 4 * ci;
+            out[o..o + 4].copy_from_slice(&(new_off[i] as u32).to_be_bytes());
+        } else {
+            let o = base + 8 * ci;
+            out[o..o + 8].copy_from_slice(&new_off[i].to_be_bytes());
+        }
+    }
+    Some(out)
+}
+
 fn hdlr_box(handler: &[u8; 4], name: &[u8]) -> Vec<u8> {
     let mut b = Vec::new();
     b.extend_from_slice(&[0, 0, 0, 0]); // pre_defined
@@ -170,16 +268,26 @@ fn data_box(typ: u32, payload: &[u8]) -> Vec<u8> {
 fn meta_box(r: &mut Rng) -> Vec<u8> {
     let mdir = !r.chance(1, 5);
     let handler: [u8; 4] = if mdir { *b"mdir" } else { *b"abcd" };
-    let hdlr = hdlr_box(&handler, if r.chance(1, 2) { b"" } else { b"handler" });
+    let hname = g_text(r);
+    let hdlr = hdlr_box(&handler, &hname);
     let mut items = Vec::new();
     if r.chance(3, 4) {
-        items.extend(bx(&[0xA9, b'n', b'a', b'm'], &data_box(1, "A title \u{e9}".as_bytes())));
+        let t = if r.chance(1, 2) { "A title \u{e9}".as_bytes().to_vec() } else { g_text(r) };
+        items.extend(bx(&[0xA9, b'n', b'a', b'm'], &data_box(*r.pick(&[1u32, 1, 1, 0, 13, 21]), &t)));
     }
     if r.chance(3, 4) {
-        if r.chance(1, 2) {
-            items.extend(bx(&[0xA9, b'd', b'a', b'y'], &data_box(1, b"2008")));
-        } else {
-            items.extend(bx(&[0xA9, b'd', b'a', b'y'], &data_box(0, &2008u32.to_be_bytes())));
+        match r.below(4) {
+            0 => items.extend(bx(&[0xA9, b'd', b'a', b'y'], &data_box(1, b"2008"))),
+            1 => items.extend(bx(&[0xA9, b'd', b'a', b'y'], &data_box(0, &2008u32.to_be_bytes()))),
+            2 => {
+                // binary year of every small length, including none at all
+                let n = r.below(7) as usize;
+                items.extend(bx(&[0xA9, b'd', b'a', b'y'], &data_box(0, &[0x07, 0xD8, 0x01, 0x02, 0x03, 0x04][..n])));
+            }
+            _ => {
+                let t = g_text(r);
+                items.extend(bx(&[0xA9, b'd', b'a', b'y'], &data_box(*r.pick(&[1u32, 0, 21]), &t)));
+            }
         }
     }
     if r.chance(1, 2) {
@@ -189,7 +297,8 @@ fn meta_box(r: &mut Rng) -> Vec<u8> {
         items.extend(bx(b"covr", &data_box(13, &p)));
     }
     if r.chance(1, 2) {
-        items.extend(bx(b"desc", &data_box(1, b"summary text")));
+        let t = if r.chance(1, 2) { b"summary text".to_vec() } else { g_text(r) };
+        items.extend(bx(b"desc", &data_box(1, &t)));
     }
     if r.chance(1, 3) {
         items.extend(bx(b"zzzz", &data_box(21, &[1, 2, 3])));
@@ -223,7 +332,25 @@ pub fn meta_image(seed: u64) -> Vec<u8> {
     for _ in 0..edits {
         let nodes = walk(&img);
         let Some(mi) = nodes.iter().position(|n| n.depth == 0 && n.is(b"moov")) else { break };
-        match r.below(9) {
+        match r.below(11) {
+            9 | 10 => {
+                // handler with a different (long / multi-byte / odd) name inside a trak
+                let cands: Vec<usize> = nodes.iter().enumerate().filter(|(_, n)| n.is(b"hdlr") && n.path.ends_with("mdia/hdlr")).map(|(i, _)| i).collect();
+                if cands.is_empty() {
+                    continue;
+                }
+                let hi = cands[r.usize_below(cands.len())];
+                let h = &nodes[hi];
+                if h.size < h.hdr + 24 {
+                    continue;
+                }
+                let mut handler = [0u8; 4];
+                handler.copy_from_slice(&img[h.body() + 8..h.body() + 12]);
+                let name = g_text(&mut r);
+                let nb = hdlr_box(&handler, &name);
+                let (st, sz) = (h.start, h.size);
+                splice(&mut img, &nodes, h.parent, st, sz, &nb);
+            }
             6 => {
                 // edit list inside a trak (version 0 or 1, 0-3 entries)
                 let Some(ti) = nodes.iter().position(|n| n.is(b"trak")) else { continue };
@@ -353,6 +480,7 @@ pub fn frag_image(seed: u64) -> (Vec<u8>, usize) {
         ops,
         start_pos: 0,
         io: IoKnobs::plain(),
+        preexisting: 0,
     };
     let base = mux_bytes(&sc);
     let nodes = walk(&base);
@@ -382,10 +510,19 @@ pub fn frag_image(seed: u64) -> (Vec<u8>, usize) {
     let mut out = init;
     if r.chance(1, 3) {
         // emsg version 0 or 1
+        // emsg strings must be valid UTF-8 for the box to parse: keep seed images valid
+        let valid = |t: Vec<u8>| if std::str::from_utf8(&t).is_ok() { t } else { b"urn:y".to_vec() };
+        let mut scheme = if r.chance(1, 2) { b"urn:x".to_vec() } else { valid(g_text(&mut r)) };
+        scheme.retain(|b| *b != 0);
+        scheme.push(0);
+        let mut value = if r.chance(1, 2) { b"v".to_vec() } else { valid(g_text(&mut r)) };
+        value.retain(|b| *b != 0);
+        value.push(0);
+        let msg = if r.chance(1, 2) { b"payload".to_vec() } else { g_text(&mut r) };
         if r.chance(1, 2) {
-            out.extend(full(b"emsg", 0, 0, &cat(&[b"urn:x\0", b"v\0", &u32b(1000), &u32b(5), &u32b(10), &u32b(7), b"payload"])));
+            out.extend(full(b"emsg", 0, 0, &cat(&[&scheme, &value, &u32b(1000), &u32b(5), &u32b(10), &u32b(7), &msg])));
         } else {
-            out.extend(full(b"emsg", 1, 0, &cat(&[&u32b(1000), &u64b(123456), &u32b(10), &u32b(7), b"urn:x\0", b"v\0", b"payload"])));
+            out.extend(full(b"emsg", 1, 0, &cat(&[&u32b(1000), &u64b(123456), &u32b(10), &u32b(7), &scheme, &value, &msg])));
         }
     }
     let nfrags = 1 + r.below(4) as u32;
@@ -570,13 +707,19 @@ pub fn build(spec: &SeedSpec) -> SeedImage {
             let (b, l) = grammar_image(*seed);
             SeedImage { bytes: b, init_len: l }
         }
+        SeedSpec::MuxShuffled { seed } => {
+            let b = mux_bytes(&small_scenario(*seed));
+            let sh = shuffle_chunks(&b, *seed).unwrap_or(b);
+            SeedImage { bytes: sh, init_len: None }
+        }
     }
 }
 
 /// Swarm choice of a seed image.
 pub fn gen_spec(r: &mut Rng) -> SeedSpec {
-    match r.below(26) {
+    match r.below(28) {
         20..=25 => SeedSpec::Grammar { seed: r.below(1 << 40) },
+        26 | 27 => SeedSpec::MuxShuffled { seed: r.below(4096) },
         0 | 1 => SeedSpec::Canned("minimal.mp4".into()),
         2 => SeedSpec::Canned("extended_audio_object_type.mp4".into()),
         3 => {
@@ -624,6 +767,7 @@ mod tests {
     #[test]
     fn packager_variants_read_back_like_the_original() {
         let mut reloc_ok = 0;
+        let mut shuffled_ok = 0;
         for seed in 0..400u64 {
             let base = mux_bytes(&small_scenario(seed));
             let want = all_samples(&base).expect("muxer output opens");
@@ -633,8 +777,15 @@ mod tests {
             }
             let meta = meta_image(seed);
             assert_eq!(all_samples(&meta).expect("meta variant opens"), want, "meta seed {seed}");
+            if let Some(sh) = shuffle_chunks(&base, seed) {
+                assert_eq!(all_samples(&sh).expect("shuffled opens"), want, "shuffled seed {seed}");
+                if sh != base {
+                    shuffled_ok += 1;
+                }
+            }
         }
         assert!(reloc_ok > 300);
+        assert!(shuffled_ok > 150, "only {shuffled_ok} shuffled variants");
     }
 
     #[test]
@@ -817,7 +968,8 @@ fn g_trak(r: &mut Rng, id: u32) -> Vec<u8> {
     m.extend_from_slice(&[0, 0]);
     let mdhd = full(b"mdhd", mv1 as u8, 0, &m);
     let handler: [u8; 4] = *r.pick(&[*b"vide", *b"soun", *b"sbtl", *b"text", *b"meta"]);
-    let hdlr = hdlr_box(&handler, if r.chance(1, 2) { b"h" } else { b"" });
+    let gname = g_text(r);
+    let hdlr = hdlr_box(&handler, &gname);
     // sample entry
     let entry = match r.below(7) {
         0 | 1 => g_visual_entry(r, b"avc1"),
@@ -886,7 +1038,14 @@ fn g_trak(r: &mut Rng, id: u32) -> Vec<u8> {
     }
     r.shuffle(&mut stbl_kids);
     let stbl = bx(b"stbl", &stbl_kids.concat());
-    let dinf = bx(b"dinf", &full(b"dref", 0, 0, &cat(&[&1u32.to_be_bytes(), &full(b"url ", 0, 1, &[])])));
+    let url = if r.chance(1, 3) {
+        let mut loc = g_text(r);
+        loc.push(0);
+        full(b"url ", 0, 0, &loc)
+    } else {
+        full(b"url ", 0, 1, &[])
+    };
+    let dinf = bx(b"dinf", &full(b"dref", 0, 0, &cat(&[&1u32.to_be_bytes(), &url])));
     let mut minf_kids: Vec<Vec<u8>> = vec![dinf, stbl];
     if r.chance(1, 2) {
         minf_kids.push(full(b"vmhd", 0, 1, &[0u8; 8]));
@@ -929,7 +1088,7 @@ fn g_moof(r: &mut Rng, seq: u32, track_ids: &[u32]) -> Vec<u8> {
     let ntraf = r.below(4);
     for _ in 0..ntraf {
         let tid = if track_ids.is_empty() || r.chance(1, 10) { g_u32(r) } else { *r.pick(track_ids) };
-        let tf_flags: u32 = *r.pick(&[0u32, 0x020000, 0x01, 0x08, 0x18, 0x3A, 0x020008]);
+        let tf_flags: u32 = if r.chance(1, 6) { r.next_u32() & 0x00FF_FFFF } else { *r.pick(&[0u32, 0x020000, 0x01, 0x08, 0x18, 0x3A, 0x020008]) };
         let mut tf = Vec::new();
         tf.extend_from_slice(&tid.to_be_bytes());
         if tf_flags & 0x1 != 0 {
@@ -950,7 +1109,8 @@ fn g_moof(r: &mut Rng, seq: u32, track_ids: &[u32]) -> Vec<u8> {
         }
         let ntrun = if r.chance(1, 8) { 2 } else if r.chance(1, 8) { 0 } else { 1 };
         for _ in 0..ntrun {
-            let fl: u32 = *r.pick(&[0x201u32, 0x301, 0xB01, 0xF05, 0x001, 0x800, 0x100, 0x200, 0x000, 0xA01]);
+            // mostly meaningful flag sets; sometimes arbitrary 24-bit flags (reserved bits too)
+            let fl: u32 = if r.chance(1, 4) { r.next_u32() & 0x00FF_FFFF } else { *r.pick(&[0x201u32, 0x301, 0xB01, 0xF05, 0x001, 0x800, 0x100, 0x200, 0x000, 0xA01]) };
             let n = r.below(5) as u32;
             let mut b = Vec::new();
             b.extend_from_slice(&if r.chance(1, 8) { g_u32(r) } else { n }.to_be_bytes());
